@@ -173,8 +173,12 @@ Definition first_word_ok (w : word) : bool :=
      | associates to the left and its operands are commands; `!` sits on a whole pipeline
      (Parser.gotStmtPipe moves Negated to the outer Stmt), never on an &&/|| list;
      operands of a BinaryCmd are not Background. *)
+(* a carriage return is a blank for the real lexer: it cannot start a word *)
+Definition first_not_cr (w : word) : Prop :=
+  match w with Lit (c :: _) :: _ => c <> 13 | _ => True end.
+
 Definition wf_sword (w : word) : Prop :=
-  wf_word w /\ not_comment_start w /\ w <> [] /\ norm_word false w = w.
+  wf_word w /\ not_comment_start w /\ first_not_cr w /\ w <> [] /\ norm_word false w = w.
 
 Definition is_andor (c : cmd) : bool :=
   match c with Binary AndStmt _ _ | Binary OrStmt _ _ => true | _ => false end.
